@@ -39,6 +39,10 @@ CHECKS = {
          "bounded-exhaustive enumeration of numeric strings and of boundary value families x precision/format configurations against strconv and math/big",
          "Parsers: every string of <=7 (8) characters over {+ - 0 1 5 9 . e E x} and every single-edit neighbour of ~90 boundary numerals (int64/uint64 limits, 19-21 digit runs, exponent windows, subnormals, 300-digit literals) is compared with strconv on the longest syntactic prefix (exact for integers, 1e-14 relative for floats). Formatters: AppendInt/LenInt on all +-(10^k+d), +-(2^k+d); AppendNumber->ParseNumber round trip on that family x dec 0..18 x groupSize 0..6 x ordered pairs of distinct 1-4 byte symbols; AppendFloat on m*10^e (e in [-330,310], both signs) x prec -1..18 checked with big.Float for well-formedness, sign and distance to the argument; AppendDecimal x dec 0..18 against big.Rat rounding half away from zero; prefix bytes preserved at cap==len and with room.",
          "Bounds: m<=99 quick / 999 thorough. Tolerances stated in the evidence: subnormal results within 2 units of the last place or 1e-14 relative; AppendFloat within one unit of the requested last digit plus 8 ulp of float64 scaling; AppendDecimal accepted within half a unit of the last decimal plus 8 ulp when 17+ digits are requested."),
+ "C15": ("exploration",
+         "bounded-exhaustive enumeration of texts x offsets, of an elision family, and of valid documents x token boundaries x illegal characters, against an independent line/column reference and context-shape invariants",
+         "Position is compared on every text up to 5 (7) atoms over the five line-break kinds, multi-byte, non-printable and NUL characters x every offset in [-1,len+1] with a reference that counts breaks and code points; the context is checked by invariants (line prefix, contiguous piece of the line, non-graphic as middle dot, at most ~60 characters, ellipses consistent, caret exactly under the character at the offset) on an elision family of long lines with distinct characters, special characters at every cut point and up to 100000 preceding lines. Every JS seed program (alone and joined pairwise by each line-break kind) and every generated JSON document gets each of {@, backslash, #, U+2019, NUL} inserted at every token boundary: the *parse.Error must carry exactly that line/column/context. Every *parse.Error raised on the enumerated C01 input spaces must equal Position(input, o) for an o inside the input (the cursor offset for xml/html/json).",
+         "CRLF and multi-byte characters are indivisible units. Token boundaries come from the reference lexers of C06/C10; documents with '/' or template substitutions are not used for insertion (goal-symbol ambiguity). Known finding: xml.Lexer computes positions on its rewritten buffer."),
  "C16": ("exploration",
          "bounded-exhaustive enumeration of argument strings per helper against independent reference definitions (regexp, net/url, encoding/base64, mime, bytes, a plain map built from the hash constants in the current source)",
          "Every string up to the bound over an alphabet built around each helper's syntax boundaries (and all 256 byte values for the byte-indexed tables) is fed to Number, Dimension, EncodeURL (both tables, three capacities), DecodeURL, DataURI (generated URIs with exact expected payload/type, and arbitrary fragment soups), Mediatype (fragment soups and every spacing of up to 2-3 distinct parameters), EqualFold, ToLower, TrimWhitespace, IsAllWhitespace, IsWhitespace, IsNewline and css/html ToHash (every constant, case variants, all single-edit neighbours, all short strings over the tables' letters); results must equal the reference; arguments must not be modified; any panic is a violation.",
